@@ -51,7 +51,11 @@ def inject(rng, spec, kind):
             return None
         e = rng.choice(spec['enums'])
         addr = sp.ident(e['schema']) + '.' + sp.ident(e['name']) if (e['schema'] != 'public' or rng.random() < 0.5) else sp.ident(e['name'])
-        return f'{sp.kw("enum")} {addr} {{\n  only\n}}'
+        dup = f'{sp.kw("enum")} {addr} {{\n  only\n}}'
+        if rng.random() < 0.4:
+            # a legal namesake in another schema stands between the two: the rule is per (schema, name)
+            return f'Enum ns_{fresh}.{sp.ident(e["name"])} {{\n  other\n}}\n' + dup
+        return dup
     if kind == 'dupGroup':
         if not spec['groups']:
             return None
@@ -79,6 +83,20 @@ def inject(rng, spec, kind):
         cands = [name.swapcase(), name.upper(), name.capitalize(), name + '_', name + ' ', ' ' + name, name + 's', name[:-1]]
         cands = [c for c in cands if c and c not in taken and c != name]
         return rng.choice(cands) if cands else None
+    if kind in ('danglingRefTable', 'danglingGroupTable') and rng.random() < 0.3:
+        # the name exists - in ANOTHER schema only: written bare (schema public) or under a wrong schema it names no table
+        decl = f'Table sx_{fresh}.only_{fresh} {{\n  id int\n}}\n'
+        who = rng.choice([f'only_{fresh}', f'sy_{fresh}.only_{fresh}', f'public.only_{fresh}'])
+        if kind == 'danglingGroupTable':
+            return decl + f'TableGroup g_{fresh} {{\n  {who}\n}}'
+        t = rng.choice(T)
+        form = rng.choice(['short', 'long', 'inline'])
+        tgt = f'{sp.table_addr(spec, T.index(t))}.{sp.ident(t["columns"][0]["name"])}'
+        if form == 'short':
+            return decl + f'Ref: {who}.id > {tgt}'
+        if form == 'long':
+            return decl + f'Ref {{\n  {tgt} < {who}.id\n}}'
+        return decl + f'Table inl_{fresh} {{\n  x int [ref: > {who}.id]\n}}'
     if kind == 'danglingRefTable':
         t = rng.choice(T)
         if rng.random() < 0.4:
